@@ -73,7 +73,81 @@ func designated(kind string, bad byte) string {
 	return goodVerifier
 }
 
+// c03PAR: PAR x PKCE. The challenge that binds the code is the PUSHED one; a code_challenge sent alongside the request_uri
+// on the front channel (by whoever handles the URL) must not replace it, and a pushed request without challenge must not
+// acquire... (that case is left unspecified: the statement speaks of the authorization request that carried a challenge).
+func c03PAR(c *run.Ctx) {
+	if !c.Mine(3) && c.NShards > 3 {
+		return
+	}
+	v1 := goodVerifier
+	v2 := "Z" + goodVerifier[1:]
+	for _, enforce := range []bool{false, true} {
+		for _, cl := range []string{"pub-c", "conf-a"} {
+			for _, front := range []string{"none", "other-challenge", "other-challenge-plain", "empty-challenge"} {
+				w := world.New(world.Opts{Cfg: func(cfg *fosite.Config) {
+					cfg.EnforcePKCEForPublicClients = enforce
+					cfg.EnablePKCEPlainChallengeMethod = true
+				}})
+				sp := w.Specs[cl]
+				auth := authFor(w, cl)
+				p := w.PAR(url.Values{"client_id": {cl}, "response_type": {"code"}, "scope": {"fosite"}, "state": {"state-0123456789"}, "redirect_uri": {sp.RedirectURIs[0]},
+					"code_challenge": {s256(v1)}, "code_challenge_method": {"S256"}}, auth)
+				if p.Err != nil {
+					c.Inconcl("c03PAR: push failed: " + world.ErrDetail(p.Err))
+					continue
+				}
+				q := url.Values{"client_id": {cl}, "request_uri": {p.S("request_uri")}}
+				switch front {
+				case "other-challenge":
+					q.Set("code_challenge", s256(v2))
+					q.Set("code_challenge_method", "S256")
+				case "other-challenge-plain":
+					q.Set("code_challenge", v2)
+					q.Set("code_challenge_method", "plain")
+				case "empty-challenge":
+					q.Set("code_challenge", "")
+					q.Set("code_challenge_method", "")
+				}
+				az := w.Authorize(q, world.Consent{})
+				code := az.Params.Get("code")
+				if code == "" {
+					c.Case(fmt.Sprintf("par-pkce front=%s authorize-refused=%s", front, az.ErrName))
+					continue
+				}
+				redeem := func(verifier string) bool {
+					f := url.Values{"grant_type": {"authorization_code"}, "code": {code}, "redirect_uri": {sp.RedirectURIs[0]}}
+					if verifier != "" {
+						f.Set("code_verifier", verifier)
+					}
+					out := w.Token(f, auth)
+					return out.Err == nil && out.S("access_token") != ""
+				}
+				hist := []string{"pushed code_challenge=S256(v1)", "front channel: " + front}
+				for _, att := range []struct{ name, v string }{{"front-channel-verifier", v2}, {"no-verifier", ""}} {
+					ok := redeem(att.v)
+					c.Case(fmt.Sprintf("par-pkce front=%s enforce=%v client=%s attempt=%s tokens=%v", front, enforce, cl, att.name, ok))
+					c.Count("pkce_attempts_refused", 1)
+					if ok {
+						c.Violate(run.Violation{Kind: "pkce-bypass", Key: fmt.Sprintf("pkce-bypass par-origin front=%s attempt=%s", front, att.name),
+							Detail: "a code whose pushed authorization request carried an S256 challenge was redeemed without the verifier for that challenge", History: hist})
+						break
+					}
+				}
+				ok := redeem(v1)
+				c.Case(fmt.Sprintf("par-pkce front=%s enforce=%v client=%s attempt=pushed-verifier tokens=%v", front, enforce, cl, ok))
+				if ok {
+					c.Count("pkce_rightful_success", 1)
+				} else {
+					c.Count("pkce_rightful_first_attempt_refused", 1)
+				}
+			}
+		}
+	}
+}
+
 func C03(c *run.Ctx) {
+	c03PAR(c)
 	c.Need("pkce_rightful_success", 1)
 	c.Need("pkce_attempts_refused", 1)
 	maxLen := 3
